@@ -39,6 +39,10 @@ def shards(tier):
     for pre in EE_CHARS:
         out.append(dict(part="ee", pre=pre, nmax=sc["ee_n"]))
     out.append(dict(part="ee_single"))
+    # realistic sizes: tails of 20-200 bases interrupted by a run of other bases; reads of 250-700 quality values
+    for a in (0, 20, 60, 130):
+        out.append(dict(part="polya_long", a=a))
+    out.append(dict(part="ee_long"))
     for cfg in range(len(CLI_CONFIGS)):
         out.append(dict(part="cli", cfg=cfg, nmax=sc["cli_n"]))
     return out
@@ -124,6 +128,36 @@ def run_shard(d):
                     s = "".join("C" if i in pos else "A" for i in range(total))
                     for lead in ("", "G", "GA"):
                         polya_case(lead + s, False)
+    elif part == "polya_long":
+        # prefix + A x a + (other base) x g + A x b + tail, all (g, b) on a grid: score drops and recoveries far beyond what short
+        # reads can produce, positions beyond 255
+        a = d["a"]
+        for g in range(0, 16):
+            for b in (0, 3, 11, 20, 59, 60, 61, 100, 200):
+                for pre in ("", "GATTACAGATTACA", "C" * 120):
+                    for other in ("C", "GT"):
+                        gap = (other * g)[:g]
+                        for tail in ("", "A", "C"):
+                            polya_case(pre + "A" * a + gap + "A" * b + tail, False)
+    elif part == "ee_long":
+        # one quality value 250-700 times (counters, table look-ups), alone and inside other values
+        for base in (33, 64):
+            for v in (0, 2, 11, 25, 40, 41, 62):
+                for reps in (250, 255, 256, 257, 300, 511, 512, 513, 700):
+                    for frame in ("", "I5", "~"):
+                        qs = frame + chr(v + base) * reps + frame[::-1]
+                        if base == 64 and frame:
+                            continue
+                        res["evals"] += 1
+                        res["nontrivial"] += 1
+                        r = expected_errors(qs, base)
+                        e = refops.expected_errors(qs, base)
+                        if not (abs(r - e) <= 1e-9 * max(1.0, e)):
+                            V.append(("ee", f"expected_errors gave {r!r} on {len(qs)} quality values, definition gives {e!r}",
+                                      dict(qualities=qs[:6] + "..." + qs[-6:], length=len(qs), base=base)))
+                        rec = SequenceRecord("r", "A" * len(qs), qs)
+                        if base == 33 and abs(e - 2.0) > 1e-6 and bool(TooManyExpectedErrors(2.0).test(rec, None)) != (e > 2.0):
+                            V.append(("maxee", "TooManyExpectedErrors(2.0) wrong on a long read", dict(length=len(qs), ee=e)))
     elif part == "trimn":
         tr = NEndTrimmer()
         for s in _strings("ACN", d["pre"], d["nmax"]):
